@@ -128,6 +128,8 @@ func showOp(kinds []Kind, op Op) string {
 		fmt.Fprintf(&sb, "%s(%s)", op.Op, show(op.K))
 	case "range":
 		fmt.Fprintf(&sb, "range(%s,%s)", show(op.K), show(op.K2))
+	case "move":
+		fmt.Fprintf(&sb, "move(%s -> %s)", show(op.K), show(op.K2))
 	case "topk", "bottomk":
 		fmt.Fprintf(&sb, "%s(%d)", op.Op, op.N)
 	case "iter":
